@@ -438,7 +438,7 @@ def gen_history(rng, nops):
                     anon.rc = 1
                     opname = b"replace" if k > 0.85 else b"add"
                     model_set(parent, where, anon, dead, insert=(opname == b"add"))
-                    ops.append(["{", "k" + b"op".hex(), "s" + opname.hex(), "k" + b"path".hex(), "s" + (prefix + b"/" + last).hex(), "k" + b"value".hex(), "i777", "}"])
+                    ops.append(["{", "k" + b"op".hex(), "s" + opname.hex(), "k" + b"path".hex(), "s" + (prefix + b"/" + last).hex(), "k" + b"value".hex(), rng.choice(["i777", "s" + b"leaf".hex(), "t", "s" + b"z".hex()]), "}"])   # (a third of the string/boolean leaves get replaced by an EQUAL value: still a different node)
             if not ops:
                 continue
             if not root.alive:
